@@ -40,6 +40,10 @@ func Yield()
 func Emit(kind, id string, val int)
 func Trace() []Event
 
+// ModelTrace is the observation trace of the counterexample being replayed
+// (native runs only; nil in the symbolic run).
+func ModelTrace() []string
+
 // DeepEqual compares two values structurally, following pointers.
 func DeepEqual(a, b any) bool
 
